@@ -6,7 +6,7 @@ d=$(dirname "$0")
 mkdir -p /tmp/seed /tmp/seedwt /tmp/seedout
 wt=/tmp/seedwt/$pid-$n; out=/tmp/seedout/$pid-$n
 git -C /repo worktree add -q --detach $wt 2>/dev/null
-python3 - "$pid" "$wt" "$out" "$d/template_r3.md" "$n" "$fl" <<'PY'
+python3 - "$pid" "$wt" "$out" "$d/${SEED_TPL:-template_r3.md}" "$n" "$fl" <<'PY'
 import json,sys,glob
 pid,wt,out,tpl,n,fl=sys.argv[1:7]
 prop=None
